@@ -46,6 +46,9 @@ type schema struct {
 	Metrics []uint32
 	Fields  map[uint32][]fieldDef
 	Series  map[uint32][]uint32
+	// hot is the slot window of the first file of each metric: later files reuse, shift or
+	// ignore it, which yields identical, nested, overlapping and disjoint windows
+	hot map[uint32][2]int
 }
 
 func (s *schema) typeOf(metric uint32, f field.ID) (field.Type, bool) {
@@ -96,7 +99,7 @@ func permute[T any](t *rapid.T, label string, in []T) []T {
 }
 
 func genSchema(t *rapid.T) *schema {
-	s := &schema{Fields: map[uint32][]fieldDef{}, Series: map[uint32][]uint32{}}
+	s := &schema{Fields: map[uint32][]fieldDef{}, Series: map[uint32][]uint32{}, hot: map[uint32][2]int{}}
 	s.Metrics = subset(t, "metrics", metricPool, 1, 4)
 	for _, m := range s.Metrics {
 		lbl := fmt.Sprintf("m%d", m)
@@ -180,7 +183,22 @@ func genFileMetric(t *rapid.T, sc *schema, metricID uint32, lbl string) *fileMet
 	if len(fm.Fields) > 1 && rapid.Bool().Draw(t, lbl+"permute") {
 		fm.Fields = permute(t, lbl+"perm", fm.Fields)
 	}
-	start, width := genWindow(t, lbl)
+	var start, width int
+	if hot, ok := sc.hot[metricID]; !ok {
+		start, width = genWindow(t, lbl)
+		sc.hot[metricID] = [2]int{start, width}
+	} else {
+		switch rapid.IntRange(0, 3).Draw(t, lbl+"winRel") {
+		case 0: // same window
+			start, width = hot[0], hot[1]
+		case 1: // nested / overlapping: shifted start, own small width
+			start, width = hot[0]+rapid.IntRange(0, 3).Draw(t, lbl+"shift"), rapid.IntRange(1, 12).Draw(t, lbl+"width")
+		case 2: // directly before/after or disjoint
+			start, width = hot[0]+hot[1]+rapid.IntRange(0, 2).Draw(t, lbl+"gap"), rapid.IntRange(1, 6).Draw(t, lbl+"width")
+		default:
+			start, width = genWindow(t, lbl)
+		}
+	}
 	points := 0
 	for si, s := range dataSeries {
 		for fi, fd := range dataFields {
